@@ -54,7 +54,7 @@ namespace
 
     static Ctx G;
 
-    std::string fixup(std::string s)
+    std::string fixup(std::string s, size_t limit = MaxText)
     {
         for (auto& c : s)
             if (c == '\n' || c == '\t' || c == '\r')
@@ -77,9 +77,10 @@ namespace
                 sp = false;
             }
         }
-        if (r.size() > MaxText)
+        // expression text is clipped; names are never (a clipped qualified name no longer ends in the function's name), types rarely
+        if (limit && r.size() > limit)
         {
-            r.resize(MaxText);
+            r.resize(limit);
             r += "…";
         }
         if (!json::isUTF8(r))
@@ -210,7 +211,7 @@ namespace
     {
         if (T.isNull())
             return "";
-        return fixup(T.getAsString(G.PP));
+        return fixup(T.getAsString(G.PP), 4000);
     }
 
     std::string qname(const NamedDecl* D)
@@ -221,7 +222,7 @@ namespace
         llvm::raw_string_ostream os(s);
         D->printQualifiedName(os, G.PP);
         os.flush();
-        return fixup(s);
+        return fixup(s, 0);
     }
 
     // function name including its own template arguments
@@ -231,7 +232,7 @@ namespace
         llvm::raw_string_ostream os(s);
         FD->getNameForDiagnostic(os, G.PP, true);
         os.flush();
-        return fixup(s);
+        return fixup(s, 0);
     }
 
     std::string funcId(const FunctionDecl* FD);
@@ -525,7 +526,7 @@ namespace
             llvm::raw_string_ostream os(s);
             RD->getNameForDiagnostic(os, G.PP, true);
             os.flush();
-            return fixup(s);
+            return fixup(s, 0);
         }
         return qname(RD);
     }
